@@ -65,16 +65,24 @@ type InstC struct {
 	SN   string `json:"sn"`
 	SV   string `json:"sv"`
 	SU   string `json:"su"`
+	CB   string `json:"cb"` // observables: "opt" = WithXCallback at creation, "reg" = Meter.RegisterCallback; "" for synchronous
+}
+
+// ReaderC: one ManualReader: its temporality and its aggregation selector (kind -> "" default | drop | sum | last | hist | expo).
+type ReaderC struct {
+	Temp string            `json:"temp"`
+	Sel  map[string]string `json:"sel"`
 }
 type Cfg struct {
-	Limit int     `json:"limit"`
-	Temp  string  `json:"temp"`
-	Insts []InstC `json:"insts"`
-	Views []ViewC `json:"views"`
+	Limit   int       `json:"limit"`
+	Readers []ReaderC `json:"readers"`
+	Insts   []InstC   `json:"insts"`
+	Views   []ViewC   `json:"views"`
 }
 type Op struct {
 	Op    string         `json:"op,omitempty"`
 	Cfg   *Cfg           `json:"cfg,omitempty"`
+	R     int            `json:"r"` // C: the collecting reader (1-based)
 	I     int            `json:"i"`
 	Attrs map[string]int `json:"attrs"`
 	V     int            `json:"v"`
@@ -204,13 +212,16 @@ type world struct {
 	rep     int
 	rnd     *rand.Rand
 	cfg     Cfg
-	reader  *sdkmetric.ManualReader
+	readers []*sdkmetric.ManualReader
 	mp      *sdkmetric.MeterProvider
-	rm      *metricdata.ResourceMetrics
+	rms     []*metricdata.ResourceMetrics // per reader, when the caller reuses its ResourceMetrics
 	reuse   bool
 	rec     []func(v int, kvs []attribute.KeyValue)                     // per instrument
 	observe []func(ob metric.Observer, v int, kvs []attribute.KeyValue) // per observable instrument
-	pending []obsRec                                                    // observations of the next cycle, in arrival order
+	// observations the callbacks make at the next collection of each reader, in arrival order; the
+	// harness knows which reader is collecting because it calls Collect itself
+	pending [][]obsRec
+	current int
 }
 
 var (
@@ -305,15 +316,51 @@ func setLimitEnv(limit, rep int) {
 	}
 }
 
-func newWorld(cfg Cfg, keys []string, rep int, seed int64) *world {
-	w := &world{keys: keys, rep: rep, cfg: cfg, rnd: rand.New(rand.NewSource(seed)), rm: &metricdata.ResourceMetrics{}}
-	w.reuse = rep%2 == 1
+var kindName = map[sdkmetric.InstrumentKind]string{}
+
+func init() {
+	for n, k := range kindOf {
+		kindName[k] = n
+	}
+}
+
+// readerOf builds a ManualReader with the abstract reader's temporality and aggregation selector.
+func readerOf(rc ReaderC, rep int) *sdkmetric.ManualReader {
 	temp := metricdata.CumulativeTemporality
-	if cfg.Temp == "delta" {
+	if rc.Temp == "delta" {
 		temp = metricdata.DeltaTemporality
 	}
-	w.reader = sdkmetric.NewManualReader(sdkmetric.WithTemporalitySelector(func(sdkmetric.InstrumentKind) metricdata.Temporality { return temp }))
-	opts := []sdkmetric.Option{sdkmetric.WithReader(w.reader)}
+	ro := []sdkmetric.ManualReaderOption{sdkmetric.WithTemporalitySelector(func(sdkmetric.InstrumentKind) metricdata.Temporality { return temp })}
+	custom := false
+	for _, a := range rc.Sel {
+		custom = custom || a != ""
+	}
+	if custom || rep%3 == 2 {
+		sel := rc.Sel
+		ro = append(ro, sdkmetric.WithAggregationSelector(func(k sdkmetric.InstrumentKind) sdkmetric.Aggregation {
+			if a := sel[kindName[k]]; a != "" {
+				return aggOf(a)
+			}
+			if rep%2 == 0 {
+				return sdkmetric.AggregationDefault{}
+			}
+			return sdkmetric.DefaultAggregationSelector(k)
+		}))
+	}
+	return sdkmetric.NewManualReader(ro...)
+}
+
+func newWorld(cfg Cfg, keys []string, rep int, seed int64) *world {
+	w := &world{keys: keys, rep: rep, cfg: cfg, rnd: rand.New(rand.NewSource(seed))}
+	w.reuse = rep%2 == 1
+	opts := []sdkmetric.Option{}
+	for _, rc := range cfg.Readers {
+		rd := readerOf(rc, rep)
+		w.readers = append(w.readers, rd)
+		w.rms = append(w.rms, &metricdata.ResourceMetrics{})
+		opts = append(opts, sdkmetric.WithReader(rd))
+	}
+	w.pending = make([][]obsRec, len(cfg.Readers))
 	for _, v := range cfg.Views {
 		opts = append(opts, sdkmetric.WithView(viewOf(v, keys, rep)))
 	}
@@ -399,33 +446,55 @@ func newWorld(cfg Cfg, keys []string, rep int, seed int64) *world {
 				w.rec[idx] = func(v int, kvs []attribute.KeyValue) { c.Record(ctx, int64(v), metric.WithAttributes(kvs...)) }
 			}
 		case "ocounter", "oupdown", "ogauge":
-			// observations are staged and made, in arrival order, by one registered callback during
-			// the next collection
-			w.rec[idx] = func(v int, kvs []attribute.KeyValue) { w.pending = append(w.pending, obsRec{idx, kvs, v}) }
+			// observations are staged and made, in arrival order, by the instrument's callback during
+			// the next collection of EACH reader
+			w.rec[idx] = func(v int, kvs []attribute.KeyValue) {
+				for r := range w.pending {
+					w.pending[r] = append(w.pending[r], obsRec{idx, kvs, v})
+				}
+			}
+			// "opt": the instrument brings its own callback (WithXCallback) that makes the staged
+			// observations of this instrument; a repeated request for the same instrument passes no
+			// callback (the SDK documents that only the first set of callbacks is used)
+			ownCB := ic.CB == "opt"
+			for j := 0; j < idx; j++ {
+				if cfg.Insts[j] == ic {
+					ownCB = false
+				}
+			}
+			mine := func(p obsRec) bool { return cfg.Insts[p.idx] == ic }
 			if f {
 				var o metric.Float64Observable
-				switch ic.Kind {
-				case "ocounter":
-					o, err = m.Float64ObservableCounter(ic.Name, ou, od)
-				case "oupdown":
-					o, err = m.Float64ObservableUpDownCounter(ic.Name, ou, od)
-				default:
-					o, err = m.Float64ObservableGauge(ic.Name, ou, od)
+				var cbs []metric.Float64Callback
+				if ownCB {
+					cbs = append(cbs, func(_ context.Context, ob metric.Float64Observer) error {
+						for _, p := range w.pending[w.current] {
+							if mine(p) {
+								ob.Observe(float64(p.v), metric.WithAttributes(p.attrs...))
+							}
+						}
+						return nil
+					})
 				}
+				o, err = f64Observable(m, ic, cbs)
 				observables = append(observables, o)
 				w.observe[idx] = func(ob metric.Observer, v int, kvs []attribute.KeyValue) {
 					ob.ObserveFloat64(o, float64(v), metric.WithAttributes(kvs...))
 				}
 			} else {
 				var o metric.Int64Observable
-				switch ic.Kind {
-				case "ocounter":
-					o, err = m.Int64ObservableCounter(ic.Name, ou, od)
-				case "oupdown":
-					o, err = m.Int64ObservableUpDownCounter(ic.Name, ou, od)
-				default:
-					o, err = m.Int64ObservableGauge(ic.Name, ou, od)
+				var cbs []metric.Int64Callback
+				if ownCB {
+					cbs = append(cbs, func(_ context.Context, ob metric.Int64Observer) error {
+						for _, p := range w.pending[w.current] {
+							if mine(p) {
+								ob.Observe(int64(p.v), metric.WithAttributes(p.attrs...))
+							}
+						}
+						return nil
+					})
 				}
+				o, err = i64Observable(m, ic, cbs)
 				observables = append(observables, o)
 				w.observe[idx] = func(ob metric.Observer, v int, kvs []attribute.KeyValue) {
 					ob.ObserveInt64(o, int64(v), metric.WithAttributes(kvs...))
@@ -437,7 +506,7 @@ func newWorld(cfg Cfg, keys []string, rep int, seed int64) *world {
 		if err != nil {
 			panic(fmt.Sprintf("instrument %v: %v", ic, err))
 		}
-		if len(observables) > 0 {
+		if len(observables) > 0 && ic.CB != "opt" {
 			observablesOf[sk] = append(observablesOf[sk], observables...)
 			obsIdx[sk][idx] = true
 		}
@@ -448,7 +517,7 @@ func newWorld(cfg Cfg, keys []string, rep int, seed int64) *world {
 		}
 		mine := obsIdx[sk]
 		_, err := meters[sk].RegisterCallback(func(_ context.Context, ob metric.Observer) error {
-			for _, p := range w.pending {
+			for _, p := range w.pending[w.current] {
 				if mine[p.idx] {
 					w.observe[p.idx](ob, p.v, p.attrs)
 				}
@@ -460,6 +529,52 @@ func newWorld(cfg Cfg, keys []string, rep int, seed int64) *world {
 		}
 	}
 	return w
+}
+
+func f64Observable(m metric.Meter, ic InstC, cbs []metric.Float64Callback) (metric.Float64Observable, error) {
+	ou, od := metric.WithUnit(ic.Unit), metric.WithDescription(ic.Desc)
+	switch ic.Kind {
+	case "ocounter":
+		o := []metric.Float64ObservableCounterOption{ou, od}
+		for _, c := range cbs {
+			o = append(o, metric.WithFloat64Callback(c))
+		}
+		return m.Float64ObservableCounter(ic.Name, o...)
+	case "oupdown":
+		o := []metric.Float64ObservableUpDownCounterOption{ou, od}
+		for _, c := range cbs {
+			o = append(o, metric.WithFloat64Callback(c))
+		}
+		return m.Float64ObservableUpDownCounter(ic.Name, o...)
+	}
+	o := []metric.Float64ObservableGaugeOption{ou, od}
+	for _, c := range cbs {
+		o = append(o, metric.WithFloat64Callback(c))
+	}
+	return m.Float64ObservableGauge(ic.Name, o...)
+}
+
+func i64Observable(m metric.Meter, ic InstC, cbs []metric.Int64Callback) (metric.Int64Observable, error) {
+	ou, od := metric.WithUnit(ic.Unit), metric.WithDescription(ic.Desc)
+	switch ic.Kind {
+	case "ocounter":
+		o := []metric.Int64ObservableCounterOption{ou, od}
+		for _, c := range cbs {
+			o = append(o, metric.WithInt64Callback(c))
+		}
+		return m.Int64ObservableCounter(ic.Name, o...)
+	case "oupdown":
+		o := []metric.Int64ObservableUpDownCounterOption{ou, od}
+		for _, c := range cbs {
+			o = append(o, metric.WithInt64Callback(c))
+		}
+		return m.Int64ObservableUpDownCounter(ic.Name, o...)
+	}
+	o := []metric.Int64ObservableGaugeOption{ou, od}
+	for _, c := range cbs {
+		o = append(o, metric.WithInt64Callback(c))
+	}
+	return m.Int64ObservableGauge(ic.Name, o...)
 }
 
 // viewOf builds the real view from the abstract criteria and mask. Zero-valued abstract fields stay
@@ -478,15 +593,17 @@ func (w *world) measure(op Op) {
 	w.rec[op.I-1](op.V, concreteAttrs(op.Attrs, w.keys, w.rep, w.rnd))
 }
 
-func (w *world) collect() []Metric {
-	rm := w.rm
+// collect runs one collection of reader r (0-based): its callbacks make the observations staged for it.
+func (w *world) collect(r int) []Metric {
+	rm := w.rms[r]
 	if !w.reuse {
 		rm = &metricdata.ResourceMetrics{}
 	}
-	if err := w.reader.Collect(context.Background(), rm); err != nil {
+	w.current = r
+	if err := w.readers[r].Collect(context.Background(), rm); err != nil {
 		panic(fmt.Sprintf("collect: %v", err))
 	}
-	w.pending = nil
+	w.pending[r] = nil
 	return project(rm, w.keys)
 }
 
@@ -640,20 +757,20 @@ func sameMetrics(a, b []Metric) bool {
 // ------------------------------------------------------------------ spec -> code: edge replay
 
 type stateJ struct {
-	C    int      `json:"c"`
-	Peek []Metric `json:"peek"`
+	C    int        `json:"c"`
+	Peek [][]Metric `json:"peek"` // per reader
 }
 
 // runOps executes ops (first one is the Setup) and returns every collection made plus a final probing
 // collection (the `peek` of the reached state).
-func runOps(ops []Op, keys []string, rep int, seed int64) (colls [][]Metric, peek []Metric, panicked any) {
+func runOps(ops []Op, keys []string, rep int, seed int64) (colls [][]Metric, peek [][]Metric, order []int, panicked any) {
 	defer func() {
 		if r := recover(); r != nil {
 			panicked = r
 		}
 	}()
 	if len(ops) == 0 || ops[0].Op != "S" {
-		return nil, []Metric{}, nil
+		return nil, [][]Metric{}, nil, nil
 	}
 	w := newWorld(*ops[0].Cfg, keys, rep, seed)
 	for _, op := range ops[1:] {
@@ -661,13 +778,20 @@ func runOps(ops []Op, keys []string, rep int, seed int64) (colls [][]Metric, pee
 		case "M":
 			w.measure(op)
 		case "C":
-			colls = append(colls, w.collect())
+			colls = append(colls, w.collect(op.R-1))
 		default:
 			panic("unknown op " + op.Op)
 		}
 	}
-	peek = w.collect()
-	return colls, peek, nil
+	// probe every reader, starting with a varying one (readers are independent of each other)
+	nr := len(w.readers)
+	peek = make([][]Metric, nr)
+	for k := 0; k < nr; k++ {
+		r := (k + int(seed%int64(nr)) + nr) % nr
+		order = append(order, r+1)
+		peek[r] = w.collect(r)
+	}
+	return colls, peek, order, nil
 }
 
 // viewSig names the class of a view: action and which kinds of criteria it uses.
@@ -700,6 +824,22 @@ func viewSig(v ViewC) string {
 	return s
 }
 
+// readersSig: temporality of every reader, "+sel" when it has its own aggregation selector.
+func readersSig(rs []ReaderC) string {
+	out := []string{}
+	for _, r := range rs {
+		t := r.Temp
+		for _, k := range allKinds {
+			if r.Sel[k] != "" {
+				t += "+sel"
+				break
+			}
+		}
+		out = append(out, t)
+	}
+	return strings.Join(out, ",")
+}
+
 func cfgSig(c *Cfg) map[string]any {
 	if c == nil {
 		return map[string]any{}
@@ -712,7 +852,7 @@ func cfgSig(c *Cfg) map[string]any {
 	for _, v := range c.Views {
 		vs = append(vs, viewSig(v))
 	}
-	return map[string]any{"limit": c.Limit, "temp": c.Temp, "kinds": strings.Join(kinds, ","), "views": strings.Join(vs, ";")}
+	return map[string]any{"limit": c.Limit, "temp": readersSig(c.Readers), "kinds": strings.Join(kinds, ","), "views": strings.Join(vs, ";")}
 }
 
 func replay(args []string) {
@@ -746,7 +886,7 @@ func replay(args []string) {
 		var from, to stateJ
 		vh.Must(json.Unmarshal(e.From, &from))
 		vh.Must(json.Unmarshal(e.To, &to))
-		colls, peek, p := runOps(ops, keys, *rep, vh.Seed()+int64(i))
+		colls, peek, order, p := runOps(ops, keys, *rep, vh.Seed()+int64(i))
 		res.Executed++
 		sig := cfgSig(ops[0].Cfg)
 		if p != nil {
@@ -755,23 +895,38 @@ func replay(args []string) {
 			continue
 		}
 		act := ops[len(ops)-1]
+		if len(to.Peek) != len(peek) {
+			res.Inconcl(fmt.Sprintf("edge %d: %d readers in the model state, %d in the harness", i, len(to.Peek), len(peek)))
+			continue
+		}
 		if act.Op == "C" && len(colls) > 0 {
-			// the collection of this edge must return what the source state promised
-			if got := colls[len(colls)-1]; !sameMetrics(got, from.Peek) {
+			// the collection of this edge must return what the source state promised for that reader
+			if got := colls[len(colls)-1]; !sameMetrics(got, from.Peek[act.R-1]) {
 				sig["why"] = "collect"
-				res.AddMismatch(vh.Mismatch{Kind: "collect", Case: sig, Path: ops[:len(ops)-1], Act: act, Want: from.Peek, Got: got})
+				res.AddMismatch(vh.Mismatch{Kind: "collect", Case: sig, Path: ops[:len(ops)-1], Act: act, Want: from.Peek[act.R-1], Got: got,
+					Detail: fmt.Sprintf("reader %d", act.R)})
 				continue
 			}
 		}
-		if !sameMetrics(peek, to.Peek) {
-			sig["why"] = "state"
-			res.AddMismatch(vh.Mismatch{Kind: "state", Case: sig, Path: ops[:len(ops)-1], Act: act, Want: to.Peek, Got: peek})
+		for _, r1 := range order {
+			if !sameMetrics(peek[r1-1], to.Peek[r1-1]) {
+				sig["why"] = "state"
+				res.AddMismatch(vh.Mismatch{Kind: "state", Case: sig, Path: ops[:len(ops)-1], Act: act, Want: to.Peek[r1-1], Got: peek[r1-1],
+					Detail: fmt.Sprintf("reader %d, probing order %v", r1, order)})
+				break
+			}
 		}
-		for _, m := range to.Peek {
-			for _, pt := range m.Pts {
-				if pt.Ovf {
-					res.Count("edges_with_overflow_point", 1)
-					break
+		if len(peek) > 1 {
+			res.Count("edges_with_several_readers", 1)
+		}
+	ovf:
+		for _, pk := range to.Peek {
+			for _, m := range pk {
+				for _, pt := range m.Pts {
+					if pt.Ovf {
+						res.Count("edges_with_overflow_point", 1)
+						break ovf
+					}
 				}
 			}
 		}
@@ -841,9 +996,12 @@ func nz(a, b string) string {
 	return b
 }
 
-func streamsOf(c Cfg, ic InstC) []streamG {
+func streamsOf(c Cfg, rd ReaderC, ic InstC) []streamG {
 	var out []streamG
 	mk := func(name, desc, unit, agg, filt string) streamG {
+		if agg == "" && rd.Sel[ic.Kind] != "" {
+			agg = rd.Sel[ic.Kind] // the reader's selection, unless the view names an aggregation
+		}
 		if agg == "" || agg == "default" {
 			agg = defaultAgg(ic.Kind)
 		}
@@ -873,24 +1031,34 @@ func streamsOf(c Cfg, ic InstC) []streamG {
 }
 
 func inDomain(c Cfg) bool {
-	byID := map[string]streamG{}
-	byRKey := map[string]string{}
-	for _, ic := range c.Insts {
-		for _, s := range streamsOf(c, ic) {
-			if p, ok := byID[s.id]; ok && (p.agg != s.agg || p.filt != s.filt) {
-				return false
-			}
-			byID[s.id] = s
-			if o, ok := byRKey[s.rkey]; ok && o != s.id {
-				return false
-			}
-			byRKey[s.rkey] = s.id
-			fits := false
-			for _, a := range compatAggs(ic.Kind) {
-				fits = fits || a == s.agg
-			}
-			if !fits {
-				return false
+	for _, rd := range c.Readers {
+		byID := map[string]streamG{}
+		byRKey := map[string]string{}
+		owner := map[string]InstC{}
+		for _, ic := range c.Insts {
+			for _, s := range streamsOf(c, rd, ic) {
+				if p, ok := byID[s.id]; ok && (p.agg != s.agg || p.filt != s.filt) {
+					return false
+				}
+				byID[s.id] = s
+				if o, ok := byRKey[s.rkey]; ok && o != s.id {
+					return false
+				}
+				byRKey[s.rkey] = s.id
+				fits := false
+				for _, a := range compatAggs(ic.Kind) {
+					fits = fits || a == s.agg
+				}
+				if !fits {
+					return false
+				}
+				// different observables sharing an aggregator must use one registered callback
+				if isObs(ic.Kind) {
+					if o, ok := owner[s.id]; ok && o != ic && (o.CB != "reg" || ic.CB != "reg") {
+						return false
+					}
+					owner[s.id] = ic
+				}
 			}
 		}
 	}
@@ -905,6 +1073,50 @@ func inDomain(c Cfg) bool {
 		}
 	}
 	return true
+}
+
+func noSel() map[string]string {
+	m := map[string]string{}
+	for _, k := range allKinds {
+		m[k] = ""
+	}
+	return m
+}
+
+// randReaders: 1-3 readers (mostly one), each with its own temporality; some carry an aggregation
+// selector: drop for some kinds, histogram flavours, sums of histograms, explicit defaults.
+func randReaders(r *rand.Rand) []ReaderC {
+	n := 1
+	switch r.Intn(5) {
+	case 0, 1:
+		n = 2
+	case 2:
+		n = 3
+	}
+	out := []ReaderC{}
+	for i := 0; i < n; i++ {
+		rd := ReaderC{Temp: []string{"delta", "cumulative"}[r.Intn(2)], Sel: noSel()}
+		if n > 1 && r.Intn(2) == 0 || r.Intn(8) == 0 {
+			for _, k := range allKinds {
+				if r.Intn(3) > 0 {
+					continue
+				}
+				switch r.Intn(5) {
+				case 0, 1:
+					rd.Sel[k] = "drop"
+				case 2:
+					rd.Sel[k] = "expo"
+				case 3:
+					rd.Sel[k] = "hist"
+				default:
+					ca := compatAggs(k)
+					rd.Sel[k] = ca[r.Intn(len(ca))]
+				}
+			}
+		}
+		out = append(out, rd)
+	}
+	return out
 }
 
 var (
@@ -968,7 +1180,7 @@ func patternFor(r *rand.Rand, name string) string {
 
 func randCfg(r *rand.Rand, keys []string) Cfg {
 	for {
-		c := Cfg{Temp: []string{"delta", "cumulative"}[r.Intn(2)], Insts: []InstC{}, Views: []ViewC{}}
+		c := Cfg{Readers: randReaders(r), Insts: []InstC{}, Views: []ViewC{}}
 		switch r.Intn(10) {
 		case 0, 1:
 			c.Limit = 0
@@ -1001,6 +1213,9 @@ func randCfg(r *rand.Rand, keys []string) Cfg {
 						ic.Num = []string{"i", "f"}[r.Intn(2)]
 					}
 				}
+			}
+			if isObs(ic.Kind) && ic.CB == "" {
+				ic.CB = []string{"opt", "reg"}[r.Intn(2)]
 			}
 			if i > 0 && r.Intn(6) == 0 { // the same instrument requested twice
 				ic = c.Insts[r.Intn(i)]
@@ -1143,6 +1358,46 @@ func countRegimes(res *vh.Result, c Cfg) {
 			res.Count(k, 1)
 		}
 	}
+	if len(c.Readers) > 1 {
+		hit("scenarios_several_readers")
+		temps := map[string]bool{}
+		for _, rd := range c.Readers {
+			temps[rd.Temp] = true
+		}
+		if len(temps) > 1 {
+			hit("scenarios_readers_differ_in_temporality")
+		}
+		for _, ic := range c.Insts {
+			dropped, kept := 0, 0
+			for _, rd := range c.Readers {
+				live := false
+				for _, st := range streamsOf(c, rd, ic) {
+					live = live || st.agg != "drop"
+				}
+				if live {
+					kept++
+				} else {
+					dropped++
+				}
+			}
+			if dropped > 0 && kept > 0 {
+				hit("scenarios_instrument_dropped_by_some_reader_only")
+				if isObs(ic.Kind) {
+					hit("scenarios_observable_dropped_by_some_reader_only_" + ic.CB)
+				}
+			}
+			if isObs(ic.Kind) {
+				hit("scenarios_several_readers_observable_" + ic.CB + "_" + ic.Num)
+			}
+		}
+	}
+	for _, rd := range c.Readers {
+		for _, k := range allKinds {
+			if rd.Sel[k] != "" {
+				hit("scenarios_reader_aggregation_selector")
+			}
+		}
+	}
 	for _, v := range c.Views {
 		wildc := strings.ContainsAny(v.MName, "*?")
 		sel, rej := 0, 0
@@ -1184,7 +1439,7 @@ func countRegimes(res *vh.Result, c Cfg) {
 				raw[nz(v.Name, ic.Name)] = true
 			}
 		}
-		for _, st := range streamsOf(c, ic) {
+		for _, st := range streamsOf(c, c.Readers[0], ic) {
 			ids[st.id] = true
 			nm := strings.SplitN(st.id, "\x00", 2)[0] + "|" + ic.SN + "|" + ic.SV + "|" + ic.SU
 			if names[nm] == nil {
@@ -1326,17 +1581,33 @@ func random(args []string) {
 					w.measure(op)
 					ops = append(ops, op)
 				}
-				obs := w.collect()
-				tw.Emit(map[string]any{"ev": "Cycle", "sc": sc, "ops": ops, "obs": obs})
-				for _, mm := range obs {
-					for _, pt := range mm.Pts {
-						if pt.Ovf {
-							res.Count("collections_with_overflow_point", 1)
-							break
-						}
+				// which readers collect now: usually one, sometimes two in a row; at the end all of them
+				nr := len(cfg.Readers)
+				who := []int{r.Intn(nr)}
+				if cy == *cycles-1 {
+					who = r.Perm(nr)
+				} else if nr > 1 && r.Intn(4) == 0 {
+					who = append(who, r.Intn(nr))
+				}
+				for k, rd := range who {
+					obs := w.collect(rd)
+					if k > 0 {
+						ops = []Op{}
 					}
-					if cfg.Limit > 0 && len(mm.Pts) == cfg.Limit {
-						res.Count("metrics_at_limit", 1)
+					tw.Emit(map[string]any{"ev": "Cycle", "sc": sc, "r": rd + 1, "ops": ops, "obs": obs})
+					if nr > 1 {
+						res.Count("collections_of_one_of_several_readers", 1)
+					}
+					for _, mm := range obs {
+						for _, pt := range mm.Pts {
+							if pt.Ovf {
+								res.Count("collections_with_overflow_point", 1)
+								break
+							}
+						}
+						if cfg.Limit > 0 && len(mm.Pts) == cfg.Limit {
+							res.Count("metrics_at_limit", 1)
+						}
 					}
 				}
 			}
@@ -1386,11 +1657,24 @@ func probe(args []string) {
 			cfg.Insts[i].SN = "c12"
 		}
 	}
+	if len(cfg.Readers) == 0 {
+		cfg.Readers = []ReaderC{{Temp: "cumulative", Sel: noSel()}}
+	}
+	for i := range cfg.Readers {
+		if cfg.Readers[i].Sel == nil {
+			cfg.Readers[i].Sel = noSel()
+		}
+	}
 	var ops []Op
 	vh.Must(json.Unmarshal([]byte(*opsJ), &ops))
+	for i := range ops {
+		if ops[i].Op == "C" && ops[i].R == 0 {
+			ops[i].R = 1
+		}
+	}
 	all := append([]Op{{Op: "S", Cfg: &cfg}}, ops...)
-	colls, peek, p := runOps(all, strings.Split(*keysF, ","), *rep, 1)
-	b, _ := json.MarshalIndent(map[string]any{"collections": colls, "final": peek, "panic": fmt.Sprint(p), "sdk_errors": sdkErrs}, "", " ")
+	colls, peek, order, p := runOps(all, strings.Split(*keysF, ","), *rep, 0)
+	b, _ := json.MarshalIndent(map[string]any{"collections": colls, "final_per_reader": peek, "probing_order": order, "panic": fmt.Sprint(p), "sdk_errors": sdkErrs}, "", " ")
 	fmt.Println(string(b))
 }
 
